@@ -1,7 +1,7 @@
-package discovery
+package discoveryclient
 
-// Forging of identities, credentials and presentations (real keys, hand-made compact JWS so that every
-// defect class can be produced), and the self-contained reference verification of the C16 statement.
+// Identities (real P-256 keys; did:jwk and did:key), harness-issued JWT credentials, and the harness' own parser of
+// the presentations the code under test sends (no code of the repository is involved in reading them).
 
 import (
 	"crypto/ecdsa"
@@ -21,11 +21,11 @@ import (
 )
 
 const (
-	serviceID       = "urn:verif:usecase:c16"
-	credentialType  = "VerifMemberCredential"
-	otherCredType   = "VerifOtherCredential"
-	maxValiditySecs = 3600
-	retractionType  = "RetractedVerifiablePresentation"
+	credentialType   = "VerifMemberCredential"
+	otherCredType    = "VerifOtherCredential"
+	registrationType = "DiscoveryRegistrationCredential"
+	retractionType   = "RetractedVerifiablePresentation"
+	paramField       = "verifParam"
 )
 
 type identity struct {
@@ -70,7 +70,7 @@ func newJWKIdentity(name string) *identity {
 	}
 }
 
-// newKeyIdentity creates a did:key identity (P-256): a DID method the service definition does not allow.
+// newKeyIdentity creates a did:key identity (P-256): a DID method service "a" does not allow.
 func newKeyIdentity(name string) *identity {
 	k, err := ecdsa.GenerateKey(elliptic.P256(), rand.Reader)
 	if err != nil {
@@ -103,8 +103,8 @@ func freshID() string {
 	return fmt.Sprintf("%d-%x", idCounter.Add(1), b)
 }
 
-// forgeVC issues a JWT credential of the given type from issuer to subject, signed with signer's key.
-func forgeVC(issuer, signer *identity, subject string, typ string, exp time.Time) string {
+// forgeVC issues a JWT credential of the given type from issuer to subject; returns the JWT and the credential id.
+func forgeVC(issuer *identity, subject string, typ string, exp time.Time) (string, string) {
 	now := time.Now()
 	id := issuer.did + "#" + freshID()
 	claims := map[string]any{
@@ -115,59 +115,14 @@ func forgeVC(issuer, signer *identity, subject string, typ string, exp time.Time
 			"credentialSubject": map[string]any{"id": subject, "member": "yes"},
 		},
 	}
-	return signCompact(signer.key, map[string]any{"alg": "ES256", "typ": "JWT", "kid": issuer.kid}, claims)
+	return signCompact(issuer.key, map[string]any{"alg": "ES256", "typ": "JWT", "kid": issuer.kid}, claims), id
 }
 
-type vpSpec struct {
-	signer     *identity // whose DID is stated (iss, kid)
-	key        *ecdsa.PrivateKey
-	jti        string
-	noJTI      bool
-	aud        []string
-	exp        time.Time
-	noExp      bool
-	creds      []string
-	retractJTI string // "" = registration
-	retraction bool
-}
-
-func forgeVP(s vpSpec) string {
-	types := []string{"VerifiablePresentation"}
-	if s.retraction {
-		types = append(types, retractionType)
-	}
-	vp := map[string]any{
-		"@context": []string{"https://www.w3.org/2018/credentials/v1"},
-		"type":     types,
-	}
-	if len(s.creds) > 0 {
-		vp["verifiableCredential"] = s.creds
-	}
-	claims := map[string]any{
-		"iss": s.signer.did, "sub": s.signer.did, "nbf": time.Now().Add(-time.Minute).Unix(), "vp": vp,
-	}
-	if !s.noJTI {
-		claims["jti"] = s.jti
-	}
-	if len(s.aud) > 0 {
-		claims["aud"] = s.aud
-	}
-	if !s.noExp {
-		claims["exp"] = s.exp.Unix()
-	}
-	if s.retraction && s.retractJTI != "" {
-		claims["retract_jti"] = s.retractJTI
-	}
-	return signCompact(s.key, map[string]any{"alg": "ES256", "typ": "JWT", "kid": s.signer.kid}, claims)
-}
-
-// ------------------------------------------------------------------------------ reference verification
+// ------------------------------------------------------------------------------ reading what was sent
 
 type jwtParts struct {
-	header  map[string]any
-	claims  map[string]any
-	signing string
-	sig     []byte
+	header map[string]any
+	claims map[string]any
 }
 
 func splitJWT(raw string) (*jwtParts, error) {
@@ -184,53 +139,13 @@ func splitJWT(raw string) (*jwtParts, error) {
 	if err != nil {
 		return nil, err
 	}
-	if out.sig, err = b64.DecodeString(parts[2]); err != nil {
-		return nil, err
-	}
 	if err = json.Unmarshal(hb, &out.header); err != nil {
 		return nil, err
 	}
 	if err = json.Unmarshal(pb, &out.claims); err != nil {
 		return nil, err
 	}
-	out.signing = parts[0] + "." + parts[1]
 	return &out, nil
-}
-
-// publicKeyOf derives the public key from the DID itself (did:jwk, did:key with P-256): no resolver of the
-// code under test is involved.
-func publicKeyOf(did string) (*ecdsa.PublicKey, error) {
-	switch {
-	case strings.HasPrefix(did, "did:jwk:"):
-		raw, err := b64.DecodeString(strings.TrimPrefix(did, "did:jwk:"))
-		if err != nil {
-			return nil, err
-		}
-		var j struct{ Crv, Kty, X, Y string }
-		if err = json.Unmarshal(raw, &j); err != nil {
-			return nil, err
-		}
-		if j.Crv != "P-256" || j.Kty != "EC" {
-			return nil, errors.New("unsupported jwk")
-		}
-		x, err1 := b64.DecodeString(j.X)
-		y, err2 := b64.DecodeString(j.Y)
-		if err1 != nil || err2 != nil {
-			return nil, errors.New("bad jwk coordinates")
-		}
-		return &ecdsa.PublicKey{Curve: elliptic.P256(), X: new(big.Int).SetBytes(x), Y: new(big.Int).SetBytes(y)}, nil
-	case strings.HasPrefix(did, "did:key:z"):
-		raw, err := base58.Decode(strings.TrimPrefix(did, "did:key:z"))
-		if err != nil || len(raw) < 3 || raw[0] != 0x80 || raw[1] != 0x24 {
-			return nil, errors.New("unsupported did:key")
-		}
-		x, y := elliptic.UnmarshalCompressed(elliptic.P256(), raw[2:])
-		if x == nil {
-			return nil, errors.New("bad point")
-		}
-		return &ecdsa.PublicKey{Curve: elliptic.P256(), X: x, Y: y}, nil
-	}
-	return nil, errors.New("unsupported DID method")
 }
 
 func didOfKid(kid string) string {
@@ -246,41 +161,6 @@ func didMethod(did string) string {
 		return ""
 	}
 	return p[1]
-}
-
-func (j *jwtParts) verifySignature() error {
-	if j.header["alg"] != "ES256" {
-		return errors.New("alg is not ES256")
-	}
-	kid, _ := j.header["kid"].(string)
-	pub, err := publicKeyOf(didOfKid(kid))
-	if err != nil {
-		return err
-	}
-	if len(j.sig) != 64 {
-		return errors.New("bad signature length")
-	}
-	digest := sha256.Sum256([]byte(j.signing))
-	if !ecdsa.Verify(pub, digest[:], new(big.Int).SetBytes(j.sig[:32]), new(big.Int).SetBytes(j.sig[32:])) {
-		return errors.New("signature does not verify")
-	}
-	return nil
-}
-
-func audiences(v any) []string {
-	switch a := v.(type) {
-	case string:
-		return []string{a}
-	case []any:
-		var out []string
-		for _, x := range a {
-			if s, ok := x.(string); ok {
-				out = append(out, s)
-			}
-		}
-		return out
-	}
-	return nil
 }
 
 func num(v any) (int64, bool) {
@@ -313,113 +193,87 @@ func contains(l []string, s string) bool {
 	return false
 }
 
-// listedInfo is what the reference verification extracts from a listed presentation.
-type listedInfo struct {
+// sentCred is one credential found in a presentation.
+type sentCred struct {
+	Types   []string
+	Issuer  string
+	Subject string
+	Raw     string         // the JWT, for harness-issued credentials
+	Fields  map[string]any // credentialSubject
+}
+
+// sentVP is what the harness reads from a presentation the code handed to the HTTP client.
+type sentVP struct {
 	Signer     string
 	JTI        string
 	Exp        int64
+	Aud        []string
 	Retraction bool
 	RetractJTI string
+	Creds      []sentCred
+	Raw        string
 }
 
-// referenceVerify evaluates the conditions of the C16 statement on the raw listed presentation:
-// verifiable JWT presentation (signature by the DID it names, credentials signed by their issuer), addressed to
-// the service, validity <= max counted from acceptedAt, not outliving its credentials, allowed DID method,
-// credentials all and only fulfilling the presentation definition (exactly one credentialType credential issued by
-// the authority to the signer). Retractions: no credentials, a retract_jti.
-func referenceVerify(raw string, authority string, allowedMethods []string, acceptedAt time.Time) (*listedInfo, []string) {
-	var bad []string
+func parseSent(raw string) (*sentVP, error) {
 	j, err := splitJWT(raw)
 	if err != nil {
-		return nil, []string{"format: not a JWT presentation (" + err.Error() + ")"}
+		return nil, err
 	}
-	info := &listedInfo{}
+	out := &sentVP{Raw: raw}
 	kid, _ := j.header["kid"].(string)
-	info.Signer = didOfKid(kid)
-	if err := j.verifySignature(); err != nil {
-		bad = append(bad, "signature: "+err.Error())
-	}
-	if iss, _ := j.claims["iss"].(string); iss != info.Signer {
-		bad = append(bad, "signature: signer is not the issuer of the presentation")
-	}
-	info.JTI, _ = j.claims["jti"].(string)
-	if info.JTI == "" {
-		bad = append(bad, "id: presentation without id")
-	}
-	if !contains(audiences(j.claims["aud"]), serviceID) {
-		bad = append(bad, "audience: not addressed to the service")
-	}
-	exp, ok := num(j.claims["exp"])
-	if !ok {
-		bad = append(bad, "validity: no expiration")
-	} else {
-		info.Exp = exp
-		if !acceptedAt.IsZero() && exp-acceptedAt.Unix() > maxValiditySecs+1 {
-			bad = append(bad, fmt.Sprintf("validity: %d s exceeds the maximum of %d s", exp-acceptedAt.Unix(), maxValiditySecs))
-		}
-		if !acceptedAt.IsZero() && exp < acceptedAt.Unix()-1 {
-			bad = append(bad, "validity: expired when it was accepted")
-		}
-	}
-	if !contains(allowedMethods, didMethod(info.Signer)) {
-		bad = append(bad, "method: DID method "+didMethod(info.Signer)+" is not allowed")
-	}
+	out.Signer = didOfKid(kid)
+	out.JTI, _ = j.claims["jti"].(string)
+	out.Exp, _ = num(j.claims["exp"])
+	out.Aud = strList(j.claims["aud"])
+	out.RetractJTI, _ = j.claims["retract_jti"].(string)
 	vp, _ := j.claims["vp"].(map[string]any)
-	info.Retraction = contains(strList(vp["type"]), retractionType)
-	var creds []string
+	out.Retraction = contains(strList(vp["type"]), retractionType)
+	var list []any
 	switch c := vp["verifiableCredential"].(type) {
-	case string:
-		creds = []string{c}
+	case nil:
 	case []any:
-		for _, x := range c {
-			s, ok := x.(string)
-			if !ok {
-				bad = append(bad, "credentials: non-JWT credential")
-				continue
+		list = c
+	default:
+		list = []any{c}
+	}
+	for _, x := range list {
+		switch c := x.(type) {
+		case string:
+			cj, err := splitJWT(c)
+			if err != nil {
+				return nil, fmt.Errorf("unparsable credential in presentation: %w", err)
 			}
-			creds = append(creds, s)
+			sc := sentCred{Raw: c}
+			sc.Issuer, _ = cj.claims["iss"].(string)
+			sc.Subject, _ = cj.claims["sub"].(string)
+			if cvc, ok := cj.claims["vc"].(map[string]any); ok {
+				sc.Types = strList(cvc["type"])
+				sc.Fields, _ = cvc["credentialSubject"].(map[string]any)
+			}
+			out.Creds = append(out.Creds, sc)
+		case map[string]any:
+			sc := sentCred{Types: strList(c["type"])}
+			switch iss := c["issuer"].(type) {
+			case string:
+				sc.Issuer = iss
+			case map[string]any:
+				sc.Issuer, _ = iss["id"].(string)
+			}
+			switch cs := c["credentialSubject"].(type) {
+			case map[string]any:
+				sc.Fields = cs
+			case []any:
+				if len(cs) > 0 {
+					sc.Fields, _ = cs[0].(map[string]any)
+				}
+			}
+			if sc.Fields != nil {
+				sc.Subject, _ = sc.Fields["id"].(string)
+			}
+			out.Creds = append(out.Creds, sc)
+		default:
+			return nil, errors.New("credential of unknown shape in presentation")
 		}
 	}
-	if info.Retraction {
-		info.RetractJTI, _ = j.claims["retract_jti"].(string)
-		if len(creds) > 0 {
-			bad = append(bad, "retraction: contains credentials")
-		}
-		if info.RetractJTI == "" {
-			bad = append(bad, "retraction: no retract_jti")
-		}
-		return info, bad
-	}
-	matching := 0
-	for _, c := range creds {
-		cj, err := splitJWT(c)
-		if err != nil {
-			bad = append(bad, "credentials: unparsable credential")
-			continue
-		}
-		if err := cj.verifySignature(); err != nil {
-			bad = append(bad, "credentials: "+err.Error())
-		}
-		ckid, _ := cj.header["kid"].(string)
-		ciss, _ := cj.claims["iss"].(string)
-		if didOfKid(ckid) != ciss {
-			bad = append(bad, "credentials: not signed by its issuer")
-		}
-		if cexp, ok := num(cj.claims["exp"]); ok && info.Exp > cexp {
-			bad = append(bad, "outlive: presentation outlives a credential")
-		}
-		if csub, _ := cj.claims["sub"].(string); csub != info.Signer {
-			bad = append(bad, "credentials: credential subject is not the signer")
-		}
-		cvc, _ := cj.claims["vc"].(map[string]any)
-		if contains(strList(cvc["type"]), credentialType) && ciss == authority {
-			matching++
-		} else {
-			bad = append(bad, "definition: surplus credential that does not fulfil the presentation definition")
-		}
-	}
-	if matching != 1 {
-		bad = append(bad, fmt.Sprintf("definition: %d credentials fulfil the single input descriptor", matching))
-	}
-	return info, bad
+	return out, nil
 }
